@@ -494,6 +494,71 @@ def run_baseprod(cases):
     return [{"raised": o["raised"]} if "raised" in o else {"ccs": [nm for nm, ok in o.get("ccs", {}).items() if ok is False]} for o in c17._run_sp_calls(cases)]
 
 
+def run_allocfail(cases):
+    """allocation-failure enumeration: the case is repeated with the k-th allocation of the rebuilt modules failing, k = 1, 2, ... until the
+    case no longer has a k-th allocation; every repetition must end in a Python exception or normally (and leave valid objects behind)"""
+    import ctypes
+    libc = ctypes.CDLL(None)
+    libc.getenv.restype = ctypes.c_char_p
+    from harness.checks import c15, c16, c17, c18
+    out = []
+    tok = int(os.environ.get("VERIF_TOKEN_BASE", "0"))
+    prog_file = os.environ.get("VERIF_PROGRESS_FILE")
+    for ci, (kind, arg, seed) in enumerate(cases):
+        res = {"kmax": 0, "exc": {}, "bad": []}
+        for k in range(1, (41 if kind in ("inst", "free") else 81)):
+            tok += 1
+            libc.unsetenv(b"VERIF_FAILED")
+            if prog_file:
+                with open(prog_file, "w") as fh:
+                    fh.write("%d %d" % (ci, k))
+            os.environ["VERIF_FAIL_AT"] = "%d:%d" % (k, tok)
+            try:
+                if kind == "sp":
+                    r = c17._run_sp_calls([arg])
+                    bad = [nm for nm, ok in r[0].get("ccs", {}).items() if ok is False]
+                    if bad:
+                        res["bad"].append([k, bad])
+                elif kind == "inst":
+                    c18.run_instance(arg, seed)
+                elif kind == "free":
+                    c18.run_free(seed)
+                elif kind == "sprog":
+                    c16.run_program_stream(arg, lambda ev: None)
+                else:
+                    c15.run_program(arg)
+            except MemoryError:
+                res["exc"]["MemoryError"] = res["exc"].get("MemoryError", 0) + 1
+            except Exception as e:      # noqa
+                res["exc"][type(e).__name__] = res["exc"].get(type(e).__name__, 0) + 1
+            finally:
+                os.environ["VERIF_FAIL_AT"] = ""
+            if not libc.getenv(b"VERIF_FAILED"):
+                break
+            res["kmax"] = k
+        out.append(res)
+    return out
+
+
+def allocfail_cases(rnd, n):
+    from harness.checks import c15, c16, c17, c18
+    fams = ["ge", "gb", "gt", "po", "pb", "pt", "sy", "he", "tr", "tb"]
+    cases = []
+    for i in range(n):
+        r = i % 10
+        if r < 5:
+            cases.append(("sp", c17.gen_sp_call(rnd, c17.SP[i % len(c17.SP)]), 0))
+        elif r < 7:
+            cases.append(("sprog", c16.gen_program(rnd, rnd.randint(4, 10)), 0))
+        elif r < 9:
+            cases.append(("dprog", c15.gen_program(rnd, rnd.randint(4, 10)), 0))
+        elif rnd.random() < 0.6:
+            cases.append(("inst", c18.gen_instance(rnd, rnd.choice(fams)), rnd.randrange(1 << 30)))
+        else:
+            cases.append(("free", None, rnd.randrange(1 << 30)))
+    return cases
+
+
 def run_import(cases):
     from harness.checks import c20
     return [{"n": len(c20._import_cases([c]))} for c in cases]
@@ -556,6 +621,10 @@ def main():
             cases.append(c)
         out["cases"] = cases
         out["results"] = isolated(run_baseprod, cases, 120, 50)
+    elif fam == "allocfail":
+        cases = allocfail_cases(rnd, n)
+        out["cases"] = cases
+        out["results"] = isolated(run_allocfail, cases, 600, 5)
     elif fam == "lapack":
         from harness.checks import c18
         fams = ["ge", "gb", "gt", "po", "pb", "pt", "sy", "he", "tr", "tb"]
